@@ -11,7 +11,7 @@ import (
 
 func init() {
 	Register(&Prop{
-		ID: "C07",
+		ID:   "C07",
 		Expl: "Decides on the maker tables and the SSA of the broadcast path: (R1) from every state reachable after a successful opening broadcast only claimed-by-preimage/coop/CSV terminals are reachable (never the cancelled state); (R2) after the wallet call that broadcasts has succeeded there is no failure exit — in the broadcast action (its record fields are assigned on every success path) and inside every CreateOpeningTransaction / CreateAndBroadcastTransaction implementation (no error return after the broadcast primitive except the verdict of an output locator); (R3) every post-broadcast waiting state arms the CSV watch on the announced (txid, vout), accepts the CSV event, and that event leads to a CSV-claim action whose only failure exit is a retry self-loop; the CSV event is injected by the registered CSV callback; (R4) no post-broadcast state is FailOnrecover and the broadcast call is guarded by the persisted record; (R5) a failing cooperative claim falls back to a CSV-armed waiting state; (R6) whether anything durable is written between the state transition and the broadcast action.",
 		NotD: "That the refund transaction confirms; wallet and chain behaviour; that watchers call back truthfully (C20).",
 		Run:  runC07,
@@ -22,12 +22,12 @@ func init() {
 // way to the chain. Frozen table confirmed by reading the adapters; entries are
 // CallInfo.Name values.
 var c07BroadcastPrimitives = map[string]string{
-	"func:(*github.com/elementsproject/glightning/glightning.Lightning).SendTx":                            "CLN: sendpsbt/txsend of the prepared tx",
-	"iface:github.com/lightningnetwork/lnd/lnrpc/walletrpc.WalletKitClient.PublishTransaction":             "LND: walletkit PublishTransaction",
-	"iface:wallet.Wallet.CreateAndBroadcastTransaction":                                                     "Liquid: wallet funds, signs and broadcasts",
-	"func:(*lwk.lwkclient).broadcast":                                                                       "LWK: broadcast of the signed pset",
-	"func:(*wallet.ElementsRpcWallet).SendRawTx":                                                            "elementsd: sendrawtransaction",
-	"iface:lwk.lwkclientInterface.broadcast":                                                                "LWK client interface (if introduced)",
+	"func:(*github.com/elementsproject/glightning/glightning.Lightning).SendTx":                "CLN: sendpsbt/txsend of the prepared tx",
+	"iface:github.com/lightningnetwork/lnd/lnrpc/walletrpc.WalletKitClient.PublishTransaction": "LND: walletkit PublishTransaction",
+	"iface:wallet.Wallet.CreateAndBroadcastTransaction":                                        "Liquid: wallet funds, signs and broadcasts",
+	"func:(*lwk.lwkclient).broadcast":                                                          "LWK: broadcast of the signed pset",
+	"func:(*wallet.ElementsRpcWallet).SendRawTx":                                               "elementsd: sendrawtransaction",
+	"iface:lwk.lwkclientInterface.broadcast":                                                   "LWK client interface (if introduced)",
 }
 
 // Output locators: their error is "the swap output is not in this transaction".
